@@ -51,7 +51,24 @@ func (g *tmplGen) q(s string) string { // quote an attribute value with a delimi
 
 func (g *tmplGen) nextK() int64 { g.k++; return g.k }
 
+// par writes the WHOLE expression of a block in parentheses now and then: ${(a + b)} is the expression a + b
+func (g *tmplGen) par(e string) string {
+	switch c := g.r.Intn(100); {
+	case c < 8:
+		return "(" + e + ")"
+	case c < 11:
+		return "( " + e + " )"
+	case c < 13:
+		return "((" + e + "))"
+	}
+	return e
+}
+
 func (g *tmplGen) printable() string {
+	return g.par(g.printable0())
+}
+
+func (g *tmplGen) printable0() string {
 	if len(g.strVars) > 0 && g.r.Chance(75) {
 		return g.strVars[g.r.Intn(len(g.strVars))]
 	}
@@ -85,16 +102,16 @@ func (g *tmplGen) condValue() string {
 	case 1:
 		return g.r.Pick([]string{"false", "yes", "", "True", " true"})
 	case 2:
-		return "${c" + strconv.Itoa(1+g.r.Intn(4)) + "}"
+		return "${" + g.par("c"+strconv.Itoa(1+g.r.Intn(4))) + "}"
 	case 3:
-		return "${num > 1 && c1}"
+		return "${" + g.par("num > 1 && c1") + "}"
 	case 4:
 		if g.r.Chance(20) {
 			return "${zz}"
 		}
-		return "${!c2}"
+		return "${" + g.par("!c2") + "}"
 	default:
-		return fmt.Sprintf("${recb(%d, c%d)}", k, 1+g.r.Intn(4))
+		return "${" + g.par(fmt.Sprintf("recb(%d, c%d)", k, 1+g.r.Intn(4))) + "}"
 	}
 }
 
